@@ -437,6 +437,12 @@ def gen_problem(r, fam, big=False):
             pts2.append((a, d + r.choice([-1, 1]) * (rad + delta)))
     else:
         raise ValueError(fam)
+    if fam not in ("threshold", "dtypes", "deepedge", "edges") and len(pts1) >= 3 and r.random() < 0.15:
+        # empty first and last group: the first and the last first-set point are moved to the antipode of the
+        # first second-set point (the groups in between keep their rows)
+        far = _norm(pts2[0][0] + 180.0, -pts2[0][1])
+        if (max(rad) if isinstance(rad, list) else rad) < 60:
+            pts1[0], pts1[-1] = far, far
     if fam in ("duplicates", "perpoint", "self") and r.random() < 0.5 and fam != "self":
         pts1, rad = repeat_rows(r, pts1, rad)
         if len(rad) == 1:
@@ -448,6 +454,8 @@ def gen_problem(r, fam, big=False):
            "ra2": [p[0] for p in pts2], "dec2": [p[1] for p in pts2], "radius": rad, "scale": scale}
     if fixdepth is not None:
         out["fixdepth"] = fixdepth
+    if fam == "self" and r.random() < 0.5:
+        out["alias"] = True          # the SAME array objects are passed for both sets
     if fam == "dtypes":
         out["formkinds"] = kinds
     return out
@@ -464,7 +472,7 @@ def gen_config(r, p, fam):
     depth = r.choice([r.randrange(1, dmax + 1), dmax, min(dmax, 10)])
     if p.get("fixdepth"):
         depth = min(dmax, p.pop("fixdepth"))
-    k = r.choice([-1, 0, 1, 1, 2, r.randrange(3, 7), n2 + 5])
+    k = r.choice([-1, 0, 1, 1, 2, r.randrange(3, 7), n2 + 5, n2 + 5, 2 ** 40, -(2 ** 40)])
     cfg = {"depth": depth, "maxmatch": k, "via": r.choice(["htm", "matcher"]),
            "layout": r.choice(LAYOUTS + ["plain"]), "family": fam}
     # one input form per argument (forms that denote the values exactly)
@@ -609,6 +617,8 @@ def run_match(c, depth=None, via=None, layout=None, file=None, again=False):
     import numpy as np
     import esutil.htm as htm
     ra1, dec1, ra2, dec2, rad = _inputs(c, layout)
+    if c.get("alias") and c["ra1"] == c["ra2"] and c["dec1"] == c["dec2"]:
+        ra2, dec2 = ra1, dec1        # aliasing: one object is both the first and the second set
     depth = depth or c["depth"]
     kwf = c.get("kw") or {}
     kw = {"maxmatch": c["maxmatch"]}
@@ -633,8 +643,9 @@ def run_match(c, depth=None, via=None, layout=None, file=None, again=False):
         # a query with other data in between must not change the answer
         ra2b, dec2b = _mk(c["ra2"], "plain"), _mk(c["dec2"], "plain")
         m.match(ra2b, dec2b, 0.5 * (c["scale"] + 1e-6), maxmatch=1)
-    if reuse >= 2:
+    if reuse >= 2 and ra2 is not ra1 and dec2 is not dec1:
         # the caller fills the buffers it built the Matcher from with the next chunk of its data
+        # (not when the same objects are also the first set of this very query)
         for arr in (ra2, dec2):
             if isinstance(arr, np.ndarray) and arr.flags.writeable and arr.ndim == 1:
                 arr[...] = arr[::-1].copy() if arr.size > 1 else arr + 1
@@ -734,6 +745,13 @@ def scale_exp(c, floats):
     for x in rad_list(c):
         E = max(E, _expo(x))
     return E
+
+
+def c_k(c):
+    """maxmatch of the case as a Coq term: the model's default when the call omits the argument"""
+    if (c.get("kw") or {}).get("maxmatch") == "omit" and c["maxmatch"] == 1:
+        return "default_maxmatch"
+    return zl(c["maxmatch"])
 
 
 def c_rows(rows, E):
@@ -879,7 +897,7 @@ class Match(Base):
         return "v_match %d %d %d %d %s %s %s %s %s %s %d %s %s" % (
             n1, n1, n2, n2, zlist(out["tri"]), zmat(out["cover"]),
             zmat([[_units(x, E) for x in r_] for r_ in dc]), c_dtrue(c, E),
-            c_rads(c, E), zl(c["maxmatch"]), E, c_same(c), outs)
+            c_rads(c, E), c_k(c), E, c_same(c), outs)
 
     def show(self, c):
         return None
@@ -930,7 +948,7 @@ class Variants(Base):
             self.ctx.count("variants:distinct-outputs", len(uniq))
         lists = uniq
         return "v_variants %d %d %s %s %s %d %s [%s]" % (
-            n1, n2, c_dtrue(c, E), c_rads(c, E), zl(c["maxmatch"]), E, c_same(c),
+            n1, n2, c_dtrue(c, E), c_rads(c, E), c_k(c), E, c_same(c),
             "; ".join(c_rows(l, E) for l in lists))
 
 
@@ -997,7 +1015,7 @@ class FileRT(Base):
         E = scale_exp(c, [x for _, _, x in mem] + [x for _, _, x in back] + list(rt.values()))
         rtm = "[" + "; ".join("(zl %s, zl %s)" % (limbs(_units(a, E)), limbs(_units(b, E))) for a, b in sorted(rt.items())) + "]"
         return "v_file %d %d %s %s %s %d %s %s %s %s %s" % (
-            n1, n2, c_dtrue(c, E), c_rads(c, E), zl(c["maxmatch"]), E, c_same(c),
+            n1, n2, c_dtrue(c, E), c_rads(c, E), c_k(c), E, c_same(c),
             c_rows(mem, E), c_rows(back, E), zl(cnt), rtm)
 
 
@@ -1296,11 +1314,18 @@ class Sequence(Base):
             def call():
                 nonlocal m, mkey
                 if c["kind"] == "htm":
-                    return _rows(h.match(args["ra1"], args["dec1"], args["ra2"], args["dec2"], rad, maxmatch=st["maxmatch"]))
-                key = (tuple(st["ra2"]), tuple(st["dec2"]))
-                if m is None or key != mkey:        # the Matcher is rebuilt (from the same buffer objects) when the second set changed
-                    m, mkey = htm.Matcher(c["depth"], args["ra2"], args["dec2"]), key
-                return _rows(m.match(args["ra1"], args["dec1"], rad, maxmatch=st["maxmatch"]))
+                    res = h.match(args["ra1"], args["dec1"], args["ra2"], args["dec2"], rad, maxmatch=st["maxmatch"])
+                else:
+                    key = (tuple(st["ra2"]), tuple(st["dec2"]))
+                    if m is None or key != mkey:        # the Matcher is rebuilt (from the same buffer objects) when the second set changed
+                        m, mkey = htm.Matcher(c["depth"], args["ra2"], args["dec2"]), key
+                    res = m.match(args["ra1"], args["dec1"], rad, maxmatch=st["maxmatch"])
+                rows = _rows(res)
+                # ownership: the caller overwrites the RETURNED arrays; the next calls must not see that
+                for arr in res:
+                    if isinstance(arr, np.ndarray) and arr.flags.writeable:
+                        arr[...] = -7
+                return rows
             hist = core.guarded(call)
 
             def alone():
@@ -1659,8 +1684,8 @@ def corpus_all(entry_name):
     return corpus_cases("C12", entry_name)
 
 TRUSTED = [
-    "Coq 8.16.1 kernel (coqc, vm_compute; no native_compute).  The 19 theorems of C12/Properties.v, the 8 of "
-    "C12/DeepProperties.v and the 5 of C12/TieProperties.v are closed under the global context (no axioms); the 3 of "
+    "Coq 8.16.1 kernel (coqc, vm_compute; no native_compute).  The 19 theorems of C12/Properties.v, the 10 of "
+    "C12/DeepProperties.v and the 7 of C12/TieProperties.v are closed under the global context (no axioms); the 3 of "
     "C12/SepNumProperties.v use the reals axioms plus the primitive-float specifications (two constants bounded by Interval); "
     "the 6 of C12/SepProperties.v use only the standard "
     "library's axioms of the reals (ClassicalDedekindReals.sig_forall_dec, sig_not_dec, functional_extensionality_dep, "
@@ -1668,7 +1693,7 @@ TRUSTED = [
     "hand-written model C12/Model.v of Matcher::init_hmap / Matcher::match (htmc.cc) and HTM.match / Matcher.match / read_pairs "
     "(htm.py); tied to the code (a) by the correspondence run on every check (differential testing, bounded by the generators) and "
     "(b) by harness/props/c12_translate.py, which regenerates C12/Gen.v (distance filter, sort comparator, emit guard, maxmatch "
-    "truncation, radius selection, all 8 for-headers, fprintf format, the ValueError size checks, read_pairs dtype/delimiter and its empty-file test) and "
+    "truncation, radius selection, all 8 for-headers, the candidate row, fprintf format and columns, the size checks with their exception class, the defaults of maxmatch/file, the delegation calls argument by argument, read_pairs dtype/delimiter and its empty-file test) and "
     "C12/GenR.v (NPY_PI/D2R/R2D, the whole body of gcirc, MATCH_COVER_PAD_DEGREES and match_cover_cosine) from the source of the "
     "tree under check, fail-closed; TieProperties.v / SepProperties.v are re-proved against them.  The translator itself "
     "(regex/ast pattern matching, ~500 lines python) is trusted",
@@ -1718,9 +1743,9 @@ def run(ctx, replay=None):
     #    TieProperties.v (model = regenerated source text) closed under the global context;
     #    SepProperties.v (real numbers) may use the axioms of the standard library of reals only
     core.proof_step(ctx, "C12", core.ALLOW_DISCRETE)
-    extra_theorems(ctx, "TieProperties", core.ALLOW_DISCRETE, 5,
+    extra_theorems(ctx, "TieProperties", core.ALLOW_DISCRETE, 7,
                    "tie of C12/Model.v to the regenerated C12/Gen.v (decisions, loops, size checks, file format of the source)")
-    extra_theorems(ctx, "DeepProperties", core.ALLOW_DISCRETE, 8,
+    extra_theorems(ctx, "DeepProperties", core.ALLOW_DISCRETE, 10,
                    "C12/DeepProperties.v (verified sort inside the model, H_cover satisfiable, history, rejections, checker decides, monitor sound, file rows meet the statement)")
     extra_theorems(ctx, "SepNumProperties", core.ALLOW_INTERVAL, 3,
                    "C12/SepNumProperties.v over the regenerated C12/GenR.v (cap robust to rounding with the source's pad; conditioning of the atan2 form)",
